@@ -24,4 +24,22 @@ PROPS = {
         explanation='every Buffer method is verified against its list+index contract for all sequences, cursors and '
                     'materialisation states; histories follow by the simulation lemma M1; a BFS against the list model '
                     'is the bounded cross-check'),
+    'C19': dict(
+        select=by_prefix('category.', 'tokens.', 'utils.Buffer.__next__', 'utils.Token.__new__', 'utils.Token.__iadd__',
+                         'utils.Token.__add__', 'utils.Token.__radd__', 'utils.Token.join'),
+        level='proof',
+        bounded=['c19.py'],
+        lemmas=['M4 (DESIGN 9): increasing, pairwise disjoint slices of S whose gaps contain only Ignored/Invalid characters '
+                'concatenate to S with exactly those characters removed (induction on the number of tokens; not mechanised)',
+                'L-len: jointext over one-character items has as many characters as items (carried as the loop invariant '
+                'acc-len of every accumulating tokenizer, so it is proved, not assumed)'],
+        trusted_base=['representation map of utils.Buffer (see C20)',
+                      'definitional instances of the counting fold cnt(Q,c,a,b) incl. the bound cnt <= b-a and disjointness of '
+                      'distinct categories (contracts/tokens_c.py cnt_facts/cnt_base)'],
+        assumptions=['utils.Buffer methods behave as their contracts say (discharged under C20)',
+                     'Buffer.peek(-1) at cursor 0 wraps onto the last materialised character (finding D14); the tokenizer '
+                     'contracts state this behaviour instead of hiding it'],
+        explanation='categorize is verified for a symbolic code point against the real CATEGORY_CODES table; each of the 11 '
+                    'tokenizers, next_token (incl. termination) and tokenize are verified against slice/offset contracts; '
+                    'tokenize\'s postcondition is the partition statement of C19'),
 }
